@@ -62,14 +62,23 @@ func NewGRPCServerMuxer(logger hclog.Logger, ln net.Listener) *GRPCServerMuxer {
 		acceptChannels: make(map[uint32]chan acceptResult),
 	}
 
-	go m.acceptSession(ln)
+	// Build the yamux configuration here rather than in the acceptSession
+	// goroutine: yamux.DefaultConfig reads os.Stderr, which plugin.Serve
+	// re-points to its own pipe while the host is already connecting.
+	cfg := yamux.DefaultConfig()
+	cfg.Logger = m.logger.Named("yamux").StandardLogger(&hclog.StandardLoggerOptions{
+		InferLevels: true,
+	})
+	cfg.LogOutput = nil
+
+	go m.acceptSession(ln, cfg)
 
 	return m
 }
 
 // acceptSessionAndMuxAccept is responsible for establishing the yamux session,
 // and then kicking off the acceptLoop function.
-func (m *GRPCServerMuxer) acceptSession(ln net.Listener) {
+func (m *GRPCServerMuxer) acceptSession(ln net.Listener, cfg *yamux.Config) {
 	defer close(m.sessionErrCh)
 
 	m.logger.Debug("accepting initial connection", "addr", m.addr)
@@ -80,11 +89,6 @@ func (m *GRPCServerMuxer) acceptSession(ln net.Listener) {
 	}
 
 	m.logger.Debug("initial server connection accepted", "addr", m.addr)
-	cfg := yamux.DefaultConfig()
-	cfg.Logger = m.logger.Named("yamux").StandardLogger(&hclog.StandardLoggerOptions{
-		InferLevels: true,
-	})
-	cfg.LogOutput = nil
 	m.sess, err = yamux.Server(conn, cfg)
 	if err != nil {
 		m.sessionErrCh <- err
